@@ -381,6 +381,9 @@ def expr(n):
             if any(k.arg is None for k in n.keywords):
                 raise Unsupported('**kwargs')
             return '(.call %s %s)' % (lstr(f + ''.join('#' + k.arg for k in n.keywords)), args(list(n.args) + [k.value for k in n.keywords]))
+        if f == 'cast' and len(n.args) == 2 and not n.keywords:
+            # `typing.cast(T, x)` returns x unchanged at run time; the type expression is not evaluated into the model
+            return expr(n.args[1])
         if f == 'isinstance':
             if len(n.args) != 2:
                 raise Unsupported('isinstance arity')
